@@ -483,6 +483,22 @@ fn mutate_one(x: &Xorb, mut b: Vec<u8>, m: &str) -> Vec<u8> {
         "random" => {
             b = unhex(p[1]);
         },
+        "v0" => {
+            // the same chunk region under a legacy (version 0) footer: identifier, version, hash, count, boundaries, chunk hashes,
+            // 16 spare bytes, then the footer length
+            let end = *x.cas.info.chunk_boundary_offsets.last().unwrap() as usize;
+            let mut v0 = cas_object::CasObjectInfoV0::default();
+            v0.cashash = x.cas.info.cashash;
+            v0.num_chunks = x.cas.info.num_chunks;
+            v0.chunk_boundary_offsets = x.cas.info.chunk_boundary_offsets.clone();
+            v0.chunk_hashes = x.cas.info.chunk_hashes.clone();
+            b.truncate(end);
+            let mut w = Cursor::new(Vec::new());
+            #[allow(deprecated)]
+            let n = v0.serialize(&mut w).unwrap() as u32;
+            b.extend_from_slice(&w.into_inner());
+            b.extend_from_slice(&n.to_le_bytes());
+        },
         "sethash" => {
             // the xorb hash recorded in the footer replaced by the hash that `otherhash` claims: a footer that describes the chunks
             // exactly but attests another object's hash
